@@ -108,13 +108,17 @@ impl BuildOptimiser {
     }
 
     pub fn build(&self) -> MCOptimiser {
+        let inner_steps = u64::min(self.inner_steps, self.steps);
         let kt_ratio = match (self.kt_ratio, self.kt_finish) {
             (Some(ratio), _) => 1. - ratio,
             // A temperature of zero has nothing to cool towards, the ratio of the temperatures
             // is not a number which would otherwise make the temperature not a number.
-            (None, Some(finish)) if self.kt_start > 0. => {
-                f64::powf(finish / self.kt_start, 1. / self.steps as f64)
-            }
+            // The temperature is reduced once every inner loop, so the number of reductions
+            // over which to reach the finishing temperature is the number of loops.
+            (None, Some(finish)) if self.kt_start > 0. && inner_steps > 0 => f64::powf(
+                finish / self.kt_start,
+                1. / (self.steps / inner_steps) as f64,
+            ),
             (None, _) => 0.1,
         };
         debug!("Setting kt_ratio to: {}", kt_ratio);
@@ -128,7 +132,7 @@ impl BuildOptimiser {
             kt_ratio,
             max_step_size: self.max_step_size,
             steps: self.steps,
-            inner_steps: u64::min(self.inner_steps, self.steps),
+            inner_steps,
             seed,
             convergence: self.convergence,
         }
